@@ -53,6 +53,9 @@ def run(idx, rep, tier):
     r8(idx, rep)
     r9(idx, rep)
     durable_ids(idx, rep, "R4")
+    # what a component assigns on this line is computed from this line: between lines every component is reset, whatever it answered before
+    from . import c06 as _c06
+    _c06.reset_table(idx, rep, "R8")
     # group members count what a standalone path counts: CsvPaths.csvpath() hands its settings (skip_blank_lines, dialect) to every member
     from . import c08 as _c08
     _c08.r2(idx, K.as_rule(rep, "R6", keep=lambda k: "builds a new member" in k))
@@ -142,6 +145,39 @@ def r1(idx, rep):
             if list(after or []) != want:
                 bad = bad or f"{name}('s', {v!r}) on {stack} (notnone={notnone}): stack becomes {after}, documented {want}"
     rep.check(bad is None, "R1", f"{fp.file}::Push table", bad or "", K.where(fp, fp.node))
+    # ---- the same push_distinct component over several lines while other components (pop, another push, an assignment) change the stack
+    # between its turns: what it pushes is decided by what the stack holds at that moment
+    HIST = [("push", "a"), ("push", "b"), ("other", ["a"]), ("push", "b"), ("other", ["c"]), ("push", "a"), ("push", "c"), ("other", ["c", "a", "d"]),
+            ("push", "d"), ("push", "e")]
+    for name, qual in (("push_distinct", False), ("push", True)):
+        r = C("r", value=None)
+        it, st = _var_interp(idx, "Push", variables={}, children=[C("eq", left=C("l", value="s"), right=r)],
+                             extra_domains={"self.notnone": [False]}, extra_handlers={"self.has_qualifier": lambda i, c, rv, a, k, q=qual: q and a[0] == "distinct"},
+                             store={"self.name": name})
+        log = []
+
+        def program(i):
+            want = []
+            for step, (op, v) in enumerate(HIST):
+                if op == "other":
+                    i.store[VARS]["s"] = list(v)
+                    want = list(v)
+                    continue
+                r.value = v
+                i.call_function(fp, {"skip": []}, "self")
+                if v not in want:
+                    want.append(v)
+                got = list(i.store[VARS].get("s") or [])
+                if got != want:
+                    log.append(f"step {step}: {name}{'.distinct' if qual else ''}('s', {v!r}) after the history {HIST[:step]}: the stack holds {got}, documented {want} "
+                               "(a distinct push leaves out exactly the values that are on the stack when it runs)")
+                    return
+        ps = it.run_program(program, st)
+        if len(ps) != 1:
+            raise AnalysisError(f"Push._decide_match not deterministic over a history ({len(ps)} paths: {ps[0].summary()['choices']})")
+        if ps[0].result[0] == "raise":
+            log.append(f"{name} over the history {HIST}: raises {ps[0].result[1]}")
+        rep.check(not log, "R1", f"{fp.file}::Push distinct over a history ({name}{'.distinct' if qual else ''})", log[0] if log else "", K.where(fp, fp.node))
     # ---- peek / peek_size
     fk = idx.method("Peek", "_produce_value")
     fs = idx.method("PeekSize", "_produce_value")
@@ -640,6 +676,40 @@ def r9(idx, rep):
     ps = it.run_program(program, st)
     ok = len(ps) == 1 and ps[0].result == ("return", [1, 2, 7, 9, 10, 10, 10, 11]) and ps[0].final_store[VARS].get("clicks") == 11
     rep.check(ok, "R9", f"{fco.file}::Counter sequence table", f"{ps[0].result if ps else None}; documented [1, 2, 7, 9, 10, 10, 10, 11] (no argument adds 1, an argument of 0 adds 0)", K.where(fco, fco.node))
+
+    # ---- first(#a): per value the physical line number of its first sighting (line 0 included), a match on that line only
+    ffv = idx.method("First", "to_value")
+    ffm = idx.method("First", "_decide_match")
+    ffr = idx.method("First", "reset")
+    rep.analysed(ffv, ffm, ffr)
+    seq = ["k", "x", "k", "x", "k", "y"]
+    it, st = _var_interp(idx, "First", children=[C("c0", value=None)], extra_handlers={"self.first_non_term_qualifier": lambda i, c, r, a, k: a[0] if a else None,
+                                                                                      "super": lambda i, c, r, a, k: Obj("__super__"), "__super__.reset": lambda i, c, r, a, k: None},
+                         extra_domains={"self.onmatch": [False]}, store={"self.name": "first"})
+    it.types["c0"] = "Header"
+    it.handlers[".to_value"] = lambda i, c, r, a, k: cur["v"]
+
+    def program(i):
+        out = []
+        for n, v in enumerate(seq):
+            cur["v"] = v
+            i.store[f"{CP}.line_monitor.physical_line_number"] = n
+            i.call_function(ffr, {"__pos__": []}, "self")
+            val = i.call_function(ffv, {"skip": []}, "self")
+            i.call_function(ffm, {"skip": []}, "self")
+            out.append((val, i.store.get("self.match"), dict(i.store[VARS].get("first") or {})))
+        return out
+
+    ps = it.run_program(program, st)
+    want, seen = [], {}
+    for n, v in enumerate(seq):
+        earlier = seen.get(v)
+        seen.setdefault(v, n)
+        want.append((earlier, earlier is None, dict(seen)))
+    got = ps[0].result[1] if len(ps) == 1 and ps[0].result[0] == "return" else [p.result for p in ps][:2]
+    d = next((f"line {n} (value {seq[n]!r}): first() gives (value, match, bookkeeping) = {g}, documented {w}" for n, (g, w) in enumerate(zip(got, want)) if tuple(g) != w), None) \
+        if isinstance(got, list) and len(got) == len(want) and all(isinstance(g, tuple) for g in got) else f"{got}"
+    rep.check(d is None, "R9", f"{ffv.file}::First sequence table", d or "6 lines", K.where(ffv, ffv.node))
 
 
 # ------------------------------------------------------------------------------------------ durable ids
